@@ -1094,10 +1094,6 @@ package goatlang
 //@   property C07
 //@   trusted
 //@   allocates structT elems(intMapPair)
-//@ func newStruct
-//@   property C07
-//@   trusted
-//@   allocates structT
 //@ func (Value).addField
 //@   property C07
 //@   trusted
@@ -2277,7 +2273,7 @@ package goatlang
 //@
 //@ func (*intMap).Assign
 //@   property C12 C03
-//@   axioms POW2
+//@   axioms POW2 COUNT
 //@   requires m != nil && rh(*m) && valid(value)
 //@   modifies elems(m.pairs)
 //@   nopanic
@@ -2286,6 +2282,7 @@ package goatlang
 //@   ensures#others forall j int :: 0 <= j && j < len(m.pairs) && m.pairs[j].key != key ==> m.pairs[j].value == old(m.pairs[j].value)
 //@   ensures#stored forall j int :: 0 <= j && j < len(m.pairs) && m.pairs[j].distance != 0 && m.pairs[j].key == key ==> m.pairs[j].value == value.assign(old(m.pairs[j].value.t))
 //@   ensures#absent !old(has(*m, key)) ==> (forall j int :: 0 <= j && j < len(m.pairs) ==> m.pairs[j].value == old(m.pairs[j].value))
+//@   ensures#count count(*m) == old(count(*m))
 //@ func (*intMap).Assign loop 0
 //@   invariant same(elemsAt(intMapPair, arr(m.pairs)), old(elemsAt(intMapPair, arr(m.pairs))))
 //@   invariant forall p int :: 0 <= p && p < len(m.pairs) && m.pairs[p].distance != 0 && m.pairs[p].key == key ==> cyc(i & m.mask, key & m.mask, m.size) <= m.pairs[p].distance - 1
@@ -2416,3 +2413,37 @@ package goatlang
 //@   callsite#receiver funcT.Value: len(v.stack) == old(len(v.stack)) + 1 && v.stack[old(len(v.stack)) - xArgs] == obj
 //@   callsite#args funcT.Value: forall j int :: 0 <= j && j < xArgs ==> v.stack[old(len(v.stack)) - xArgs + 1 + j] == old(v.stack[old(len(v.stack)) - xArgs + j])
 //@   callsite#below funcT.Value: forall j int :: 0 <= j && j < old(len(v.stack)) - xArgs ==> v.stack[j] == old(v.stack[j])
+//@
+//@ -- the struct layer: a struct value is a *structT; Fields is its own table (copied from the type
+//@ -- object at instantiation), Methods / Lookup / Order are shared with the type object
+//@ spec methodsOK(m intMap) bool
+//@   def forall j int :: 0 <= j && j < len(m.pairs) && m.pairs[j].distance != 0 ==> is(m.pairs[j].value.value, *funcT) && as(m.pairs[j].value.value, *funcT) != nil && as(m.pairs[j].value.value, *funcT).Args >= 1 && (as(m.pairs[j].value.value, *funcT).Variadic ==> as(m.pairs[j].value.value, *funcT).Args >= 2)
+//@ spec wfS(s *structT) bool
+//@   def s != nil && s.Lookup != nil && wfIM(s.Fields) && s.Methods != nil && wfIM(*s.Methods) && arr(s.Fields.pairs) != arr(s.Methods.pairs)
+//@
+//@ func newStruct
+//@   property C12 C07
+//@   allocates structT
+//@   nopanic
+//@   ensures#value result.t == TypeStruct | Type(typeN<<8) && is(result.value, *structT) && isfresh(as(result.value, *structT)) && as(result.value, *structT) != nil
+//@   ensures#fields as(result.value, *structT).Lookup == lookup && as(result.value, *structT).Order == order && as(result.value, *structT).Fields == data && as(result.value, *structT).Methods == methods && as(result.value, *structT).TypeN == 0
+//@
+//@ func (*structT).SetIndex
+//@   property C12
+//@   requires wfS(s) && valid(v)
+//@   modifies elems(s.Fields.pairs)
+//@   nopanic
+//@   ensures#wf wfS(s) && *s == old(*s)
+//@   ensures#stored forall x Value :: trig(k, x) && old(holds(s.Fields, k, x)) ==> holds(s.Fields, k, v.assign(x.t))
+//@   ensures#others forall k2 int, x Value :: trig(k2, x) && k2 != k ==> (holds(s.Fields, k2, x) <==> old(holds(s.Fields, k2, x)))
+//@   ensures#keys forall k2 int :: trig(k2) ==> (has(s.Fields, k2) <==> old(has(s.Fields, k2)))
+//@ func (*structT).SetAttr
+//@   inline
+//@ func (*structT).GetAttr
+//@   inline
+//@ func (*structT).GetIndex
+//@   property C12 C09
+//@   requires wfS(s) && methodsOK(*s.Methods)
+//@   allocates funcT
+//@   ensures#field has(s.Fields, k) ==> holds(s.Fields, k, result)
+//@   ensures#method !has(s.Fields, k) ==> result.t == TypeFunc && is(result.value, *funcT) && isfresh(as(result.value, *funcT))
